@@ -295,8 +295,10 @@ pub fn run(args: &Args, m: &Manifest, reg: &Registry) {
         rep.finish("replay", false);
         return;
     }
-    let n_hist = args.budget(200, 2000, 3);
+    let n_hist = args.budget(200, 600, 3);
     let mut flipped_instances: u64 = 0;
+    let mut mixed_causes: std::collections::BTreeSet<(String, String)> = Default::default();
+    let mut all_fail_causes: Vec<(usize, String, String)> = Vec::new();
     let mut flipped_kinds: BTreeMap<String, u64> = BTreeMap::new();
     let mut sg_changed_groups = 0u64;
     let mut all_fail_groups = 0u64;
@@ -310,12 +312,16 @@ pub fn run(args: &Args, m: &Manifest, reg: &Registry) {
         let oks: Vec<&Variant22> = g.variants.iter().filter(|v| ok_of(v)).collect();
         let bad: Vec<&Variant22> = g.variants.iter().filter(|v| !ok_of(v)).collect();
         if oks.is_empty() {
-            all_fail_groups += 1;
+            // none compiles: consistent with the property; whether the generator is to blame is decided below
+            let v = &g.variants[0];
+            let msg = if !v.analysis.ok { v.analysis.err.clone() } else { m.rustc_failed.get(&v.prog_id).cloned().unwrap_or_default() };
+            all_fail_causes.push((g.gid, err_class(&msg), err_operator(g, v, &msg)));
             continue;
         }
         let r = oks[0];
         for v in &bad {
             let (stage, msg) = if !v.analysis.ok { ("front-end", v.analysis.err.clone()) } else { ("rustc", m.rustc_failed[&v.prog_id].clone()) };
+            mixed_causes.insert((err_class(&msg), err_operator(g, v, &msg)));
             rep.violation(
                 &format!("C22|compile|mixed-outcome|{stage}|{}|{}", err_class(&msg), err_operator(g, v, &msg)),
                 &format!("group {}: variant {} ({:?}) is rejected by the {stage} while variant {} of the same program compiles: {}", g.gid, v.vid, v.inserts, r.vid, &msg[..msg.len().min(400)]),
@@ -367,6 +373,16 @@ pub fn run(args: &Args, m: &Manifest, reg: &Registry) {
             }
         }
     }
+    // a group in which no variant compiles is a generator defect unless the same error (class, operator) also
+    // makes only *some* variants of another group fail (there the user code is evidently well-typed)
+    for (gid, class, op) in &all_fail_causes {
+        if mixed_causes.contains(&(class.clone(), op.clone())) {
+            rep.count("groups_where_no_variant_compiles_for_a_cause_seen_in_mixed_groups");
+        } else {
+            all_fail_groups += 1;
+            eprintln!("group {gid}: no variant compiles ({class}, {op})");
+        }
+    }
     for (k, n) in &flipped_kinds {
         rep.count_n(&format!("flip.{k}"), *n);
     }
@@ -397,7 +413,7 @@ pub fn run(args: &Args, m: &Manifest, reg: &Registry) {
          (identity()/map(|x| x)/tee()+null()/tee()+for_each/unary union()/unary tee()/union with an empty source/handoff() inserted on random edges, statements \
          shuffled so binary operators see their inputs declared in either order), chosen among 14 candidates to maximise operators whose pull/push colour \
          (read from the real front end's node_color_map) flips. Compile outcome is observed per variant (front end in-process, rustc per crate); every compiled \
-         variant is run on 200/2000 random histories (<= 6 ticks x <= 5 items per source + 2 flush ticks) and compared with the base variant per sink per tick \
+         variant is run on 200/600 random histories (<= 6 ticks x <= 5 items per source + 2 flush ticks) and compared with the base variant per sink per tick \
          (sequence where the order is documented, multiset otherwise). Non-trivial = (group, variant, history) where some operator's colour flipped or the \
          subgraph count changed and the trace is non-empty.",
         false,
